@@ -348,6 +348,14 @@ Proof.
   - destruct (find_lfeat s e (Some f)); split; try reflexivity; apply bframe_refl.
   - destruct (find_lfeat s e (Some f)) as [lf|]; [destruct (assoc_N fn (lf_data lf))|]; split; try reflexivity; apply bframe_refl.
   - split; [apply bframe_refl | reflexivity].
+  - (* LocalUnsubscribe *)
+    unfold local_unrequest. destruct (find_lfeat s e (Some f)) as [lf|]; [|split; [apply bframe_refl | reflexivity]].
+    destruct (fa_dev r); [|split; [apply bframe_refl | reflexivity]].
+    destruct (peer_by_addr s n); split; try reflexivity; constructor; reflexivity.
+  - (* LocalUnbind *)
+    unfold local_unrequest. destruct (find_lfeat s e (Some f)) as [lf|]; [|split; [apply bframe_refl | reflexivity]].
+    destruct (fa_dev r); [|split; [apply bframe_refl | reflexivity]].
+    destruct (peer_by_addr s n); split; try reflexivity; constructor; reflexivity.
 Qed.
 
 (* teardown *)
